@@ -21,7 +21,7 @@ type MapV struct {
 }
 
 func (x *Exec) safety(e *Env, kind string, at ast.Node, cond *Term) {
-	if e.contract || x.inGlobalInit > 0 || x.quiet > 0 {
+	if e.contract || x.inGlobalInit > 0 || x.quiet > 0 || x.fieldModulus != nil {
 		return
 	}
 	if cond.IsTrue() {
@@ -66,6 +66,9 @@ func (x *Exec) elemRangeAxiom(e *Env, arr *Term, elem types.Type) *Term {
 }
 
 func (x *Exec) havoc(e *Env, t types.Type, base string) Value {
+	if isBigIntType(t) {
+		return Scalar{x.fresh(base, IntS), mathIntType}
+	}
 	if as := abstractSort(t); as != nil {
 		return Scalar{x.fresh(base, as), t}
 	}
@@ -583,6 +586,21 @@ func (e *Env) contractForm(name string, n *ast.CallExpr) (Value, bool) {
 	case "mathint":
 		v := e.expr(n.Args[0])
 		return Scalar{e.toIntTerm(v), mathIntType}, true
+	case "has_inverse":
+		a := e.toIntTerm(e.derefBig(e.expr(n.Args[0])))
+		m := e.toIntTerm(e.derefBig(e.expr(n.Args[1])))
+		if e.x.fieldModulus != nil {
+			return Scalar{Ne(a, IntC(0)), boolT}, true
+		}
+		return Scalar{App("has_inverse", BoolS, a, m), boolT}, true
+	case "cong":
+		// cong(a, b): a and b are congruent modulo the field modulus (field-congruence mode only)
+		if e.x.fieldModulus == nil {
+			unsupported("%s: cong() outside a fieldmode contract", e.where)
+		}
+		a := e.toIntTerm(e.derefBig(e.expr(n.Args[0])))
+		b := e.toIntTerm(e.derefBig(e.expr(n.Args[1])))
+		return Scalar{Eq(a, b), boolT}, true
 	case "contents":
 		// contents(s): the whole backing array of a slice that starts at offset 0 of its allocation
 		sv, ok := e.expr(n.Args[0]).(SliceV)
@@ -943,6 +961,12 @@ func (x *Exec) defineRec(e *Env, sf *SpecFn, spkg *packages.Package, name string
 
 func (x *Exec) contractOf(f *types.Func) *Contract {
 	pp, key := funcKey(f)
+	if x.C != nil && x.C.Variant != "" {
+		// inside a variant (e.g. field-congruence) proof, callees are used through the same variant
+		if c, ok := x.U.Contracts[pp+"."+key+"#"+x.C.Variant]; ok {
+			return c
+		}
+	}
 	return x.U.Contracts[pp+"."+key]
 }
 
@@ -1542,4 +1566,14 @@ func (x *Exec) abstractMethod(e *Env, callee *types.Func, sig *types.Signature, 
 	e.st.assume(e.R().rangeOf(v, rt))
 	x.trusted["interface method "+key+" as a function of its receiver"] = true
 	return Scalar{v, rt}, true
+}
+
+// derefBig: a *big.Int in a contract expression denotes its integer value.
+func (e *Env) derefBig(v Value) Value {
+	if p, ok := v.(PtrV); ok {
+		if c, ok := navigate(e.x.memCell(e.st, p.Alloc), p.Path).(Scalar); ok {
+			return c
+		}
+	}
+	return v
 }
